@@ -18,7 +18,7 @@ LEVEL = "model_checking"
 def run(ctx):
     q = ctx.quick()
     sims = [("Sim_node.cfg", 200 if q else 1500, 12), ("Sim_auth.cfg", 120 if q else 800, 20)]
-    sp, n = lib.generate(ctx, ["node", "failover", "deep", "dup", "auth"], sims, ["Probe_AtMostOnePrimary", "Probe_PrimaryExistsAndMarked", "Probe_ReRegisterKeepsAssignment"])
+    sp, n = lib.generate(ctx, ["node", "failover", "deep", "dup", "chain", "auth"], sims, ["Probe_AtMostOnePrimary", "Probe_PrimaryExistsAndMarked", "Probe_ReRegisterKeepsAssignment"])
     r = lib.replay(ctx, sp, n)
     lib.need(r, ["AddNode", "UpdateNode", "RemoveNode", "UpdateNodeState", "PromoteWriter", "DemoteWriter", "AssignCompactor",
                  "CreateOrg", "CreateTeam", "CreateRole", "CreateMPerm", "AddTokenToTeam", "DeleteOrg", "DeleteTeam", "DeleteRole",
